@@ -8,20 +8,25 @@ Model-level statements go through `DMat.toMatrix`, i.e. they are about the very 
 `drivers/C07.lean` runs (`posteriorCov?`, `reduction?`, `marginalCov`, `variationalCov`, `psdCert?`,
 `negWitness?`, `Clamp.run Gen.C07.varianceClamp`, `NExpr.eval Gen.C07.greaterThanTransform`).
 
-PROVED for all sizes / inputs / hyperparameters: RBF (also ARD), RQ (also ARD), Matérn-½ in input dimension one,
-cosine (d = 1), periodic, spectral mixture, linear, constant, polynomial, index, multitask / LCM (Kronecker),
-cylindrical (given a PSD radial factor), scale, sums, products.
+PROVED for all sizes / inputs / hyperparameters: RBF (also ARD), RQ (also ARD), Matérn-½, -3/2 and -5/2 in input dimension
+one, the triangle kernel (piecewise polynomial q = 0, d = 1), Hamming-IMQ (any sequence length / vocabulary), cosine (d = 1),
+periodic, spectral mixture, linear, constant, polynomial, index, multitask / LCM (Kronecker), cylindrical (given a PSD
+radial factor — the radial kernel acts on one-dimensional radii, so RBF / RQ / Matérn bases are covered), scale, sums,
+products; and the general tools `gram_l2_psd` / `gram_autocorrelation_psd` (`k(a,b) = ∫ g(t−a) g(t−b) dt`),
+`gram_scale_mixture_psd`, `gram_exp_psd`.
 
 NOT PROVED (observed only, see `gram_psd_partial` at the end): positive definiteness of the Matérn covariance
-*functions* for ν = ½ in dimension d > 1 and for ν = 3/2, 5/2 in any dimension, of the piecewise-polynomial and
-Hamming-IMQ functions, of the cylindrical kernel's radial factor when its base kernel is one of those, and of the
-derivative kernels (RBFKernelGrad, RBFKernelGradGrad, Matern52KernelGrad, PolynomialKernelGrad).  That is Bochner /
-Schoenberg-level harmonic analysis (resp. differentiation of PSD kernels) which Mathlib does not provide.
+*functions* in input dimension d > 1 (ν = ½, 3/2, 5/2), of the piecewise-polynomial functions for q ≥ 1 (any d) and q = 0 in
+d > 1, and of the derivative kernels (RBFKernelGrad, RBFKernelGradGrad, Matern52KernelGrad, PolynomialKernelGrad).  The first
+two are Bochner / Schoenberg-level harmonic analysis in ℝ^d which Mathlib does not provide (in d = 1 the autocorrelation
+representation replaces it); the last needs differentiation of PSD kernels.
 -/
 import GPVerif.Bridge.PSD
 import GPVerif.Bridge.RBF
 import GPVerif.Bridge.RQ
 import GPVerif.Bridge.Matern12
+import GPVerif.Bridge.Autocorr
+import GPVerif.Bridge.HammingIMQ
 
 open Matrix
 open scoped Kronecker
@@ -310,6 +315,58 @@ theorem gram_cylindrical_psd {d : Type*} [Fintype d] {R : Matrix ι ι ℝ} (hR 
   have hlin : (A * Aᵀ).PosSemidef := by simpa using gram_linear_psd A zero_le_one
   exact hR.hadamard (posSemidef_sum _ fun p _ => (hpow_psd hlin p).smul (hw p))
 
+/-! ### Wave 3: autocorrelation kernels (Matérn-3/2, Matérn-5/2, triangle kernel in dimension one), Hamming-IMQ -/
+
+/-- **Gram matrix of `L²` functions**: `∫ φ_i φ_j dμ` is PSD for finitely many functions on any measure space
+(`vᵀ G v = ∫ (Σ vᵢ φᵢ)² dμ ≥ 0`). -/
+theorem gram_l2_psd {Ω : Type*} [MeasurableSpace Ω] (μ : MeasureTheory.Measure Ω) (φ : ι → Ω → ℝ)
+    (hint : ∀ i j, MeasureTheory.Integrable (fun t => φ i t * φ j t) μ) :
+    (of fun i j => ∫ t, φ i t * φ j t ∂μ : Matrix ι ι ℝ).PosSemidef := integral_gram_psd μ φ hint
+
+/-- **autocorrelation lemma**: for `g : ℝ → ℝ` with the integrals finite, `k(a, b) = ∫ g(t − a) g(t − b) dt` has a PSD Gram
+matrix on every finite point set (`Σ cᵢcⱼ k(xᵢ,xⱼ) = ∫ (Σ cᵢ g(t − xᵢ))² dt`). -/
+theorem gram_autocorrelation_psd (g : ℝ → ℝ) (x : ι → ℝ)
+    (hint : ∀ i j, MeasureTheory.Integrable (fun t => g (t - x i) * g (t - x j)) MeasureTheory.volume) :
+    (of fun i j => ∫ t, g (t - x i) * g (t - x j) : Matrix ι ι ℝ).PosSemidef := autocorr_gram_psd g x hint
+
+/-- `∫ e^{−|t−a|} e^{−|t−b|} dt = (1 + |a − b|) e^{−|a − b|}` (split at `a` and `b`; three exponential integrals). -/
+theorem matern32_is_autocorrelation (a b : ℝ) :
+    MeasureTheory.Integrable (fun t => Real.exp (-|t - a|) * Real.exp (-|t - b|)) MeasureTheory.volume ∧
+    ∫ t, Real.exp (-|t - a|) * Real.exp (-|t - b|) = (1 + |a - b|) * Real.exp (-|a - b|) := integral_exp_abs_mul a b
+
+/-- **`MaternKernel(nu=1.5)` in input dimension one**: `(1 + √3 r) e^{−√3 r}`, `r = |x_i − x_j| / ℓ`, every `ℓ > 0`, every finite
+set of points (unsorted, duplicates allowed). -/
+theorem gram_matern32_1d_psd (x : ι → ℝ) {ℓ : ℝ} (hℓ : 0 < ℓ) :
+    (of fun i j => (1 + Real.sqrt 3 * (|x i - x j| / ℓ)) * Real.exp (-(Real.sqrt 3 * (|x i - x j| / ℓ))) :
+      Matrix ι ι ℝ).PosSemidef := matern32_1d_gram_psd x hℓ
+
+/-- `∫ g(t−a) g(t−b) dt = ¾ (1 + |a−b| + |a−b|²/3) e^{−|a−b|}` for the causal profile `g(s) = s² e^{−s} 1[s > 0]`
+(`∫₀^∞ u^k e^{−2u} du = k!/2^{k+1}`). -/
+theorem matern52_is_autocorrelation (a b : ℝ) :
+    MeasureTheory.Integrable (fun t => causal2 (t - a) * causal2 (t - b)) MeasureTheory.volume ∧
+    ∫ t, causal2 (t - a) * causal2 (t - b) = 3 / 4 * (1 + |a - b| + |a - b| ^ 2 / 3) * Real.exp (-|a - b|) :=
+  causal2_autocorr a b
+
+/-- **`MaternKernel(nu=2.5)` in input dimension one**: `(1 + √5 r + 5r²/3) e^{−√5 r}`, `r = |x_i − x_j| / ℓ`. -/
+theorem gram_matern52_1d_psd (x : ι → ℝ) {ℓ : ℝ} (hℓ : 0 < ℓ) :
+    (of fun i j => (1 + Real.sqrt 5 * (|x i - x j| / ℓ) + 5 / 3 * (|x i - x j| / ℓ) ^ 2) *
+      Real.exp (-(Real.sqrt 5 * (|x i - x j| / ℓ))) : Matrix ι ι ℝ).PosSemidef := matern52_1d_gram_psd x hℓ
+
+/-- **`PiecewisePolynomialKernel(q=0)` in input dimension one** (`j = ⌊1/2⌋ + 0 + 1 = 1`): `max(0, 1 − |x_i − x_j|/ℓ)`. -/
+theorem gram_piecewise_q0_1d_psd (x : ι → ℝ) {ℓ : ℝ} (hℓ : 0 < ℓ) :
+    (of fun i j => max 0 (1 - |x i - x j| / ℓ) : Matrix ι ι ℝ).PosSemidef := piecewise0_1d_gram_psd x hℓ
+
+/-- `exp(−c · d_Hamming)` is PSD (`c ≥ 0`): the product over the sequence positions of `e^{−c} J + (1 − e^{−c}) [s_i(t) = s_j(t)]`. -/
+theorem gram_exp_neg_hamming_psd {T V : Type*} [Fintype T] [DecidableEq V] (seq : ι → T → V) {c : ℝ} (hc : 0 ≤ c) :
+    (of fun i j => Real.exp (-c * ((Finset.univ.filter fun t => seq i t ≠ seq j t).card : ℝ)) : Matrix ι ι ℝ).PosSemidef :=
+  exp_neg_hamming_psd seq hc
+
+/-- **`HammingIMQKernel`** on (one-hot encodings of) sequences of any length over any vocabulary:
+`((1 + α) / (α + d_Hamming(s_i, s_j)))^β`, `α, β > 0` (through `gram_scale_mixture_psd`). -/
+theorem gram_hamming_imq_psd {T V : Type*} [Fintype T] [DecidableEq V] (seq : ι → T → V) {α β : ℝ} (hα : 0 < α) (hβ : 0 < β) :
+    (of fun i j => ((1 + α) / (α + ((Finset.univ.filter fun t => seq i t ≠ seq j t).card : ℝ))) ^ β :
+      Matrix ι ι ℝ).PosSemidef := hamming_imq_gram_psd seq hα hβ
+
 /-- entrywise product of finitely many PSD matrices (`ProductStructureKernel`, products of several factors). -/
 theorem gram_finite_product_psd {q : Type*} (s : Finset q) (Kf : q → Matrix ι ι ℝ) (h : ∀ a ∈ s, (Kf a).PosSemidef) :
     (of fun i j => ∏ a ∈ s, Kf a i j : Matrix ι ι ℝ).PosSemidef := hprod_psd s Kf h
@@ -526,16 +583,17 @@ end model
 
 Full strength (NOT proved — Bochner / Schoenberg):
 
-  theorem gram_psd (k ∈ {Matérn ν = ½ (d > 1), Matérn ν ∈ {3/2, 5/2}, piecewise polynomial, Hamming-IMQ (one-hot),
-      cylindrical (‖x‖ ≤ 1) with such a radial base kernel, RBFKernelGrad, RBFKernelGradGrad, Matern52KernelGrad,
-      PolynomialKernelGrad}) (x : Fin n → domain k) : (of fun i j => k (x i) (x j)).PosSemidef
+  theorem gram_psd (k ∈ {Matérn ν ∈ {½, 3/2, 5/2} in input dimension d > 1, piecewise polynomial (q ≥ 1; q = 0 in d > 1),
+      RBFKernelGrad, RBFKernelGradGrad, Matern52KernelGrad, PolynomialKernelGrad})
+      (x : Fin n → domain k) : (of fun i j => k (x i) (x j)).PosSemidef
 
 (RBF, RQ, cosine d = 1, periodic and spectral mixture, listed as unprovable in DESIGN.md, ARE proved above:
-`gram_rbf_psd`, `gram_rq_psd`, `gram_cosine_psd`, `gram_periodic_psd`, `gram_spectral_mixture_psd`; Matérn-½ in
-dimension one: `gram_matern12_1d_psd`.)
+`gram_rbf_psd`, `gram_rq_psd`, `gram_cosine_psd`, `gram_periodic_psd`, `gram_spectral_mixture_psd`; in dimension one
+Matérn-½ / 3/2 / 5/2: `gram_matern12_1d_psd`, `gram_matern32_1d_psd`, `gram_matern52_1d_psd`, the triangle kernel
+`gram_piecewise_q0_1d_psd`; Hamming-IMQ: `gram_hamming_imq_psd`.)
 
 Proved weakening: the order-2 necessary conditions for a stationary kernel `k(x,y) = f(dist x y)` with
-`|f r| ≤ f 0` (which Matérn, piecewise polynomial and Hamming-IMQ satisfy): the Gram matrix is symmetric, has
+`|f r| ≤ f 0` (which Matérn and piecewise polynomial satisfy): the Gram matrix is symmetric, has
 constant non-negative diagonal `f 0`, and every 2×2 principal submatrix is PSD.
 The harness observes the full statement numerically and certifies it exactly per instance (`psdCert?`). -/
 
@@ -606,6 +664,17 @@ example : (negWitness? (DMat.ofMatrix !![(1 : ℚ), 2; 2, 1])).isSome = true := 
 /-- a variance diagonal with a negative rounding residue is lifted to the floor. -/
 example : Gen.C07.varianceClamp.run (![(-1 : ℚ) / 1000000000000, 0, 1]) Gen.C07.minVarianceDouble
     = ![Gen.C07.minVarianceDouble, Gen.C07.minVarianceDouble, 1] := by decide +kernel
+
+/-- the integrability hypothesis of `gram_autocorrelation_psd` is satisfiable: `g(s) = e^{−|s|}` at any points. -/
+example (x : Fin 3 → ℝ) : ∀ i j, MeasureTheory.Integrable
+    (fun t => (fun s => Real.exp (-|s|)) (t - x i) * (fun s => Real.exp (-|s|)) (t - x j)) MeasureTheory.volume :=
+  fun i j => (integral_exp_abs_mul (x i) (x j)).1
+
+/-- … and for `gram_l2_psd`: the same functions as an `L²` family. -/
+example (x : Fin 2 → ℝ) : ∀ i j, MeasureTheory.Integrable
+    (fun t => (fun (i : Fin 2) (t : ℝ) => Real.exp (-|t - x i|)) i t * (fun (i : Fin 2) (t : ℝ) => Real.exp (-|t - x i|)) j t)
+      MeasureTheory.volume :=
+  fun i j => (integral_exp_abs_mul (x i) (x j)).1
 
 /-- softplus hypothesis of `noise_ge_lower` is satisfiable (`tr = softplusT Real.exp Real.log 20`). -/
 example : ∀ x : ℝ, 0 < softplusT Real.exp Real.log 20 x := softplus_pos (by norm_num)
